@@ -551,14 +551,20 @@ func main() {
 	// other rows / in the other pipeline) the first confirmPerSig are re-run; a
 	// signature is reported iff one of its cells is confirmed.
 	const confirmPerSig = 3
-	perSig := map[string]int{}
 	skippedConfirm := map[string]bool{}
 	type again struct {
 		c *Cell
 		v verdict
 		n int
 	}
-	var redo []again
+	var (
+		cands       = map[string][]again{} // violating cells by signature, in enumeration order
+		sigSeq      []string
+		confirmed   = map[string]bool{}
+		unconfirmed = map[string][]string{}
+		rerun       = map[string]bool{}
+		nredo       int
+	)
 	for _, c := range cells {
 		o, ok := res[c.ID]
 		if !ok {
@@ -570,16 +576,40 @@ func main() {
 				n = 3
 			}
 			sig := signature(c, v.class)
-			if perSig[sig]++; perSig[sig] > confirmPerSig {
-				skippedConfirm[c.ID] = true
-				continue
+			if _, ok := cands[sig]; !ok {
+				sigSeq = append(sigSeq, sig)
 			}
-			redo = append(redo, again{c, v, n})
+			cands[sig] = append(cands[sig], again{c, v, n})
 		}
 	}
-	confirmed := map[string]bool{}
-	unconfirmed := map[string][]string{}
-	{
+	// up to confirmRounds rounds: as long as a signature has no confirmed cell, its
+	// next confirmPerSig cells are re-run
+	const confirmRounds = 4
+	for round := 0; round < confirmRounds; round++ {
+		var redo []again
+		for _, sig := range sigSeq {
+			done := false
+			for _, a := range cands[sig] {
+				if confirmed[a.c.ID] {
+					done = true
+				}
+			}
+			if done {
+				continue
+			}
+			k := 0
+			for _, a := range cands[sig] {
+				if !rerun[a.c.ID] && k < confirmPerSig {
+					rerun[a.c.ID] = true
+					redo = append(redo, a)
+					k++
+				}
+			}
+		}
+		if len(redo) == 0 {
+			break
+		}
+		nredo += len(redo)
 		type job struct {
 			a again
 			k int
@@ -608,6 +638,13 @@ func main() {
 		for _, a := range redo {
 			if agree[a.c.ID] == a.n {
 				confirmed[a.c.ID] = true
+			}
+		}
+	}
+	for _, as := range cands {
+		for _, a := range as {
+			if !rerun[a.c.ID] {
+				skippedConfirm[a.c.ID] = true
 			}
 		}
 	}
@@ -739,8 +776,8 @@ func main() {
 	r.Finish(ev.Coverage{
 		"evaluations":         atomic.LoadInt64(&nRuns),
 		"distinct_nontrivial": fired,
-		"rule": "cells = call site {ReaderFunc, WriterFunc, Map, Filter, Flatmap, Fold, Reduce combiner @ task-local table / shared (per-task or per-machine) combine buffer / consumer-side merge, Repartition fn, Scan callback} x mode {error, temporary (base errors.Temporary), temporary (net-style Temporary()), panic, partition >= n, partition < 0} x {always, once} x position {first row, first row after the vector boundary, last row (of the last shard), at EOF} x pipeline {armed operator last; ... -> Reduce} x configuration {local, verifsystem 1 machine, same + MachineCombiners (+ 2 machines for the consumer merge)" +
-			map[bool]string{true: ", verifsystem 4 one-proc machines", false: ""}[r.Thorough()] + "}; vector size 3 with 7 rows/shard (4 and 9 where a Reduce is present: combining frames need a power of two); 2 shards. A cell is non-trivial iff its user function actually delivered the failure (counted by the function itself) or the process died in it. evaluations = cell executions including confirmation re-runs.",
+		"rule": "cells = call site {ReaderFunc, WriterFunc, Map, Filter, Flatmap, Fold, Reduce combiner @ task-local table / shared (per-task or per-machine) combine buffer / consumer-side merge, Repartition fn, Scan callback} x mode {error, temporary (base errors.Temporary), temporary (net-style Temporary()), temporary (one package-level *errors.Error sentinel returned every time), panic, partition >= n, partition < 0} x {always, once, twice (temporary modes; fails the first two times it is reached in a run)} x position {first row, first row after the vector boundary, last row (of the last shard), at EOF} x pipeline {armed operator last; ... -> Reduce} x configuration {local, verifsystem 1 machine, same + MachineCombiners (+ 2 machines for the consumer merge)" +
+			map[bool]string{true: ", verifsystem 4 one-proc machines", false: ""}[r.Thorough()] + "}; vector size 3 with 7 rows/shard (4 and 9 where a Reduce is present: combining frames need a power of two); 2 shards. After the failing run the failing Func is run again in the same session (local: once per proc; clusters: once; transient failures fire again in each of these runs and must again go away), then a healthy Func whose tasks are Exclusive (need all procs). A cell is non-trivial iff its user function actually delivered the failure (counted by the function itself) or the process died in it. evaluations = cell executions including confirmation re-runs.",
 		"cells_nominal":                             nominal,
 		"cells_meaningful":                          len(cells),
 		"cells_skipped":                             sk,
@@ -758,6 +795,6 @@ func main() {
 		"slowest_cell_ms":                           slowest,
 		"hang_watchdog_s":                           hangAfter.Seconds(),
 		"violating_cells_confirmed":                 len(confirmed),
-		"violating_cells_unconfirmed":               len(redo) - len(confirmed),
+		"violating_cells_unconfirmed":               nredo - len(confirmed),
 	})
 }
